@@ -105,6 +105,10 @@ var frags = []string{
 func genData(t *rapid.T) []byte {
 	n := rapid.IntRange(0, 12).Draw(t, "nfrag")
 	var b []byte
+	if rapid.IntRange(0, 9).Draw(t, "bomfirst") == 0 {
+		// the first bytes are a byte order mark (or the beginning of one): bytes of the input like any others
+		b = append(b, rapid.SampledFrom([]string{"\xef\xbb\xbf", "\xef\xbb", "\xfe\xff", "\xff\xfe", "#!"}).Draw(t, "bom")...)
+	}
 	for i := 0; i < n; i++ {
 		if rapid.IntRange(0, 9).Draw(t, "raw") == 0 {
 			b = append(b, rapid.Byte().Draw(t, "byte"))
@@ -372,6 +376,21 @@ func TestProp_Cursor(t *testing.T) {
 				hist = append(hist, "Offset")
 				if got := c.Offset(); got != pos {
 					t.Fatalf("%s: Offset() = %d, want %d", s.kind, got, pos)
+				}
+			},
+			"ErrorHere": func(t *rapid.T) {
+				// a second entry point on the same input: an error is built (and positioned) for the current offset while
+				// the input stays in use; it must leave the cursor, the terminator and the caller's bytes as they are
+				if s.in == nil {
+					t.Skip("buffer.Lexer has no NewErrorLexer")
+				}
+				hist = append(hist, "NewErrorLexer")
+				e := parse.NewErrorLexer(s.in, "probe %d", pos)
+				if e == nil || e.Line < 1 || e.Column < 1 {
+					t.Fatalf("%s: NewErrorLexer at offset %d gives %+v", s.kind, pos, e)
+				}
+				if got := c.Peek(L - pos); got != 0 {
+					t.Fatalf("%s: Peek at the end = %#x after NewErrorLexer, want 0 (history %v)", s.kind, got, hist)
 				}
 			},
 			"Bytes": func(t *rapid.T) {
